@@ -108,6 +108,10 @@ def cval(v) -> str:
         return f"(VStr {cstr(v)})"
     if isinstance(v, tuple) and all(isinstance(i, int) and not isinstance(i, bool) for i in v):
         return f"(VTup {clist(v, cz)})"
+    if isinstance(v, dict) and all(isinstance(k, str) and isinstance(i, int) and not isinstance(i, bool)
+                                   for k, i in v.items()):
+        # a dict as a VALUE (an output, an event data item); canonical form: sorted by key
+        return f"(VMap {clist(sorted(v.items()), lambda kv: cpair(cstr(kv[0]), cz(kv[1])))})"
     raise Unrepresentable(repr(v))
 
 
